@@ -175,15 +175,24 @@ type peer struct {
 func (p *peer) write(total int, seg string) {
 	end := p.wrote + total
 	for p.wrote < end {
-		n := sizeOf(seg, p.rng)
-		if n > end-p.wrote {
-			n = end - p.wrote
+		// one announcement (Wr) per write - or, with agg set, per group of writes of at least agg bytes
+		var group []int
+		sum := 0
+		for p.wrote+sum < end && (len(group) == 0 || (p.agg > 0 && sum < p.agg)) {
+			n := sizeOf(seg, p.rng)
+			if n > end-p.wrote-sum {
+				n = end - p.wrote - sum
+			}
+			group = append(group, n)
+			sum += n
 		}
-		hx.Emit("Wr", "c", p.c, "d", p.outDir, "n", n)
-		if _, err := p.conn.Write(streamChunk(p.c, p.outDir, p.wrote, n)); err != nil {
-			return
+		hx.Emit("Wr", "c", p.c, "d", p.outDir, "n", sum)
+		for _, n := range group {
+			if _, err := p.conn.Write(streamChunk(p.c, p.outDir, p.wrote, n)); err != nil {
+				return
+			}
+			p.wrote += n
 		}
-		p.wrote += n
 	}
 }
 
@@ -538,12 +547,16 @@ func bridgeDriver(a *Args) {
 
 	// many connections opened and closed over time, 16 at a time, closed from either side: afterwards the
 	// bridge processes hold nothing
-	hx.Reset("bridge-churn", "bridge:churn")
 	churn := 400
 	if hx.Thorough() {
 		churn = 3000
 	}
-	{
+	for done := 0; done < churn; done += 200 {
+		hx.Reset(fmt.Sprintf("bridge-churn-%d", done/200), "bridge:churn")
+		batch := 200
+		if churn-done < batch {
+			batch = churn - done
+		}
 		var cw sync.WaitGroup
 		sem := make(chan struct{}, 16)
 		var pmu2 sync.Mutex
@@ -578,7 +591,7 @@ func bridgeDriver(a *Args) {
 				}
 			}
 		}
-		for k := 0; k < churn; k++ {
+		for k := 0; k < batch; k++ {
 			cn++
 			c := cn
 			seed := rng.Int63()
@@ -627,9 +640,9 @@ func bridgeDriver(a *Args) {
 			}(k)
 		}
 		cw.Wait()
+		time.Sleep(50 * time.Millisecond)
+		hx.Emit("Final", "server_open", atomic.LoadInt64(&srv.open), "bridge_fds_leaked", fdsLeaked())
 	}
-	time.Sleep(50 * time.Millisecond)
-	hx.Emit("Final", "server_open", atomic.LoadInt64(&srv.open), "bridge_fds_leaked", fdsLeaked())
 	res.Case(fmt.Sprintf("churn:%d", churn), map[string]interface{}{"connections": churn, "parallel": 16})
 
 	// plain HTTP to the bridge backend is passed through to the backend port
@@ -746,7 +759,7 @@ func bridgeLibDriver(a *Args) {
 	}
 	amount := 60000
 	if hx.Thorough() {
-		amount = 1 << 20
+		amount = 256 << 10
 	}
 	n := 0
 	for _, rbuf := range []string{"1", "7", "small", "1024", "4096", "64k"} {
